@@ -723,6 +723,10 @@ class Interp:
     def ev_Name(self, n, env, ctx):
         return self.lookup_name(n.id, n, env, ctx)
 
+    def h_star_element(self, v, n, env, ctx):
+        """`*x` in a display where x is not known item by item: the display holds x's items - abstractly, whatever x holds"""
+        return v
+
     def _elts(self, n, env, ctx):
         """elements of a tuple / list / set display; `*x` is spliced when x is a tuple known item by item"""
         out = []
@@ -732,7 +736,7 @@ class Interp:
                 if isinstance(v, TupleV):
                     out.extend(v.items)
                 else:
-                    raise Inconclusive("starred element in a %s display is not modelled" % type(n).__name__.lower(), n)
+                    out.append(self.h_star_element(v, n, env, ctx))
             else:
                 out.append(self.ev(e, env, ctx))
         return out
